@@ -1486,7 +1486,7 @@ class Engine(CondMixin, Interp):
                 return True
             return any(r not in live for r in _ROOT.findall(t))
 
-        for f in [f for f in d.facts if any(dead(x) for x in f[1:])]:
+        for f in [f for f in d.facts if any(dead(x) for x in (f[1:3] if f[0] == "item" else f[1:]))]:
             d.facts.discard(f)
         for k in [k for k, v in d.timeeq.items() if dead(k) or dead(v)]:
             del d.timeeq[k]
